@@ -64,6 +64,10 @@ def run(ctx):
         PIN + "drop_missing_values_and_fill_spectra_dataframe"))
     _existence_checks(ctx, prog.func(
         "mokapot.dataset.OnDiskPsmDataset.__init__"))
+    # the NaN scan reads through the chunk iterator, everything downstream
+    # through read(): shared clause with C13
+    from .c13 import conversions_agree
+    conversions_agree(ctx, "C10d-conversion-agrees")
     _env(ctx)
 
 
